@@ -161,6 +161,6 @@ def strat_sections(ctx: Ctx):
 
 PARTS: list[Part] = [
     enum_part("table", table_cases, check_section, {"quick": 2, "thorough": 4}),
-    hyp_part("sections", strat_sections, check_section, {"quick": 300, "thorough": 4000},
+    hyp_part("sections", strat_sections, check_section, {"quick": 500, "thorough": 2500},
              {"quick": 6, "thorough": 16}),
 ]
